@@ -433,11 +433,12 @@ func try(f func()) (outcome string) {
 // roots returns every ast.Node of the tree reachable without crossing into another file's tree, in
 // pre-order, each with the nodes below it.
 type rootInfo struct {
-	node  sast.Node
-	below []int // indices in the roots slice of the proper descendants
+	node   sast.Node
+	below  []int // indices in the roots slice of the proper descendants
+	inExpr bool  // the nearest ast.Node above is an expression
 }
 
-func collectRoots(v reflect.Value, seen map[uintptr]bool, out *[]rootInfo) []int {
+func collectRoots(v reflect.Value, seen map[uintptr]bool, out *[]rootInfo, inExpr bool) []int {
 	for v.Kind() == reflect.Interface {
 		if v.IsNil() {
 			return nil
@@ -451,8 +452,9 @@ func collectRoots(v reflect.Value, seen map[uintptr]bool, out *[]rootInfo) []int
 		}
 		seen[v.Pointer()] = true
 		if n, ok := v.Interface().(sast.Node); ok && v.Elem().Kind() == reflect.Struct {
-			*out = append(*out, rootInfo{node: n})
+			*out = append(*out, rootInfo{node: n, inExpr: inExpr})
 			self = len(*out) - 1
+			_, inExpr = n.(sast.Expression)
 		}
 		v = v.Elem()
 	}
@@ -462,7 +464,7 @@ func collectRoots(v reflect.Value, seen map[uintptr]bool, out *[]rootInfo) []int
 		t := v.Type()
 		for i := 0; i < t.NumField(); i++ {
 			if m := fieldMode(t.Field(i)); m == "one" || m == "list" {
-				below = append(below, collectRoots(v.Field(i), seen, out)...)
+				below = append(below, collectRoots(v.Field(i), seen, out, inExpr)...)
 			}
 		}
 	case reflect.Slice:
@@ -471,7 +473,7 @@ func collectRoots(v reflect.Value, seen map[uintptr]bool, out *[]rootInfo) []int
 			if e.Kind() == reflect.Struct && e.CanAddr() {
 				e = e.Addr()
 			}
-			below = append(below, collectRoots(e, seen, out)...)
+			below = append(below, collectRoots(e, seen, out, inExpr)...)
 		}
 	}
 	if self >= 0 {
@@ -483,7 +485,7 @@ func collectRoots(v reflect.Value, seen map[uintptr]bool, out *[]rootInfo) []int
 
 func observe(caseID int, name string, tree *sast.Tree) []any {
 	var roots []rootInfo
-	collectRoots(reflect.ValueOf(tree), map[uintptr]bool{}, &roots)
+	collectRoots(reflect.ValueOf(tree), map[uintptr]bool{}, &roots, false)
 	// which subtrees make CloneNode / Walk panic (to tell a root cause from its ancestors)
 	cpanic := make([]bool, len(roots))
 	wpanic := make([]bool, len(roots))
@@ -503,7 +505,9 @@ func observe(caseID int, name string, tree *sast.Tree) []any {
 	var out []any
 	for i, r := range roots {
 		apis := []string{"CloneNode"}
-		if _, ok := r.node.(sast.Expression); ok {
+		if _, ok := r.node.(sast.Expression); ok && !r.inExpr {
+			// CloneExpression: once per maximal expression (its sub-expressions are cloned with it, and
+			// each of them is also the root of a CloneNode observation, which delegates to CloneExpression)
 			apis = append(apis, "CloneExpression")
 		}
 		if _, ok := r.node.(*sast.Tree); ok {
